@@ -3,7 +3,8 @@ package main
 
 // C10 driver.  Three kinds of inputs, all executed on the real oned readers / writers:
 //   read  : a symbol given as run lengths (constructed by TLC from the spec's tables, e.g. carrying a substituted digit
-//           with the original check digit) is painted and decoded by the matching reader; the answer is recorded.
+//           with the original check digit) is painted and decoded by the matching reader (rd = "own") or by the
+//           multi-format UPC/EAN reader (rd = "multi"); the answer is recorded.
 //   write : a content is given to the matching writer (width 0, height 1, margin 0); error outcome and the run lengths
 //           of the produced row are recorded.
 //   mask  : for cnt consecutive payloads the writer is offered payload+d for d = 0..9; recorded: the bit mask of
@@ -21,6 +22,7 @@ import (
 type ev struct {
 	Op     string `json:"op"`
 	Sym    string `json:"sym"`
+	Rd     string `json:"rd"`
 	N      []int  `json:"n"`
 	Pos    int    `json:"pos"`
 	D      int    `json:"d"`
@@ -88,7 +90,11 @@ func main() {
 			if e.H < 1 {
 				e.H = 12
 			}
-			o := odr.Decode(odr.Reader(e.Sym), odr.Render(e.Runs, e.Q, e.Scale, e.H), nil)
+			rsym := e.Sym
+			if e.Rd == "multi" {
+				rsym = "MULTI"
+			}
+			o := odr.Decode(odr.Reader(rsym), odr.Render(e.Runs, e.Q, e.Scale, e.H), nil)
 			e.Text, e.Err, e.Orient, e.Ext, e.Fmt, e.Panic, e.Msg = o.Text, o.Err, o.Orient, o.Ext, o.Fmt, o.Panic, o.Msg
 		case "write":
 			p := hlib.Guard(func() {
